@@ -148,6 +148,12 @@ fn run_property(id: &str, tier: &Tier, known: &Known) -> i32 {
         if results.iter().any(|r: &SubResult| r.violation.is_some()) {
             break;
         }
+        // developer knob (never set by a registered command): run one sub-check only
+        if let Ok(only) = std::env::var("VERIF_ONLY") {
+            if s.p.dname() != only {
+                continue;
+            }
+        }
         let cases = if tier.quick { s.quick } else { s.thorough };
         results.push(
             s.p.ddrive(cases, tier.lanes.min(s.max_lanes), tier.seed, known),
